@@ -2,7 +2,11 @@
 
 package sourcerunner
 
-import "time"
+import (
+	"time"
+
+	"reduction.dev/reduction/clocks"
+)
 
 // Accessors for the verification harness (/verif, property C04). Compiled only
 // with -tags verif.
@@ -25,5 +29,16 @@ func (r *SourceRunner) VerifRelease() {
 	select {
 	case r.errChan <- nil:
 	default:
+	}
+}
+
+// VerifSetBatchTimers gives the key-by batcher (index -1) and the batcher of
+// every operator (index i) a timer of its own made by mk, as each of them has
+// its own SystemTimer in production. Call it after HandleDeploy and before the
+// first record.
+func (r *SourceRunner) VerifSetBatchTimers(mk func(i int) clocks.Timer) {
+	r.keyEventChannel.VerifBatcher().VerifSetTimer(mk(-1))
+	for i, o := range r.operators.operators {
+		o.batcher.VerifSetTimer(mk(i))
 	}
 }
